@@ -25,7 +25,7 @@ type FuncVC struct {
 
 func (ld *Loader) newGen(specs *Specs, opts GenOpts) *Gen {
 	return &Gen{ld: ld, specs: specs, e: newEmitter(), touched: map[string]Sort{}, strLits: map[string]Term{},
-		touchedAll: map[string]Sort{}, typeIDs: map[string]int{}, frSeen: map[string]bool{}, opts: opts, abstracted: map[string]int{}, calleesUsed: map[string]string{}}
+		touchedAll: map[string]Sort{}, viewSyms: map[string]string{}, typeIDs: map[string]int{}, frSeen: map[string]bool{}, opts: opts, abstracted: map[string]int{}, calleesUsed: map[string]string{}}
 }
 
 func (g *Gen) nextBound() int { g.boundN++; return g.boundN }
@@ -107,8 +107,7 @@ func genFunction(ld *Loader, specs *Specs, fn *ssa.Function, ct *Contract, opts 
 		for _, rq := range ct.Requires {
 			env := tr.topEnv(tr.pre)
 			env.pre = tr.pre
-			t := env.evalBool(rq.AST)
-			e.assume(rc, t)
+			tr.assumeClause(env, rc, rq.AST)
 		}
 	}
 	g.touched = map[string]Sort{}
@@ -119,6 +118,7 @@ func genFunction(ld *Loader, specs *Specs, fn *ssa.Function, ct *Contract, opts 
 		_ = resNames
 		for _, en := range ct.Ensures {
 			var parts []Term
+			var extras []Term
 			for _, r := range tr.rets {
 				env := tr.topEnv(r.st)
 				env.reach = r.cond
@@ -128,11 +128,12 @@ func genFunction(ld *Loader, specs *Specs, fn *ssa.Function, ct *Contract, opts 
 				}
 				tr.rc = r.cond
 				tr.bindResults(env, ct, fn.Signature, packed)
-				t := env.evalBool(en.AST)
+				t, extra := tr.goalClause(env, en.AST)
+				extras = append(extras, extra...)
 				parts = append(parts, implies(r.cond, t))
 			}
 			e.oblige(&Obl{Name: fmt.Sprintf("%s#ensures:%s", tr.label, en.Label), Kind: "ensures", Props: en.Props,
-				Cond: tTrue, Goal: and(parts...), Pos: en.Where, Fn: tr.label, Replay: en.Replay})
+				Cond: tTrue, Goal: and(parts...), Pos: en.Where, Fn: tr.label, Replay: en.Replay, Extra: extras})
 		}
 		if ct.HasAssigns {
 			tr.frameObligations(ct)
@@ -325,4 +326,127 @@ func (tr *Trans) frameObligations(ct *Contract) {
 		e.oblige(&Obl{Name: fmt.Sprintf("%s#frame:no-unknown-effects", tr.label), Kind: "frame", Props: tr.propsOf(), Cond: tTrue,
 			Goal: tFalse, Fn: tr.label, Pos: ct.Where})
 	}
+}
+
+// genRefinement checks that the contract of a concrete method implies the contract of the interface method it
+// implements, under a coupling relation between the interface-level ghost state and the concrete fields.
+func genRefinement(ld *Loader, specs *Specs, rf *Refinement) *FuncVC {
+	implKey := expandFuncKey(rf.Impl, "")
+	if fn := ld.lookupFunc(rf.Impl); fn == nil {
+		// allow short names relative to the cedar module
+		for k := range ld.funcs {
+			if strings.HasSuffix(k, rf.Impl) && strings.Contains(k, repoModule) {
+				implKey = k
+			}
+		}
+	} else {
+		implKey = rf.Impl
+	}
+	label := "refine " + strings.ReplaceAll(rf.Iface, repoModule+"/", "") + " by " + strings.ReplaceAll(implKey, repoModule+"/", "")
+	vc := &FuncVC{Key: label, Label: label}
+	fn := ld.lookupFunc(implKey)
+	ict, mct := specs.Contracts[rf.Iface], specs.Contracts[implKey]
+	if fn == nil || ict == nil || mct == nil {
+		vc.GenErr = fmt.Sprintf("refinement needs the function and both contracts (fn=%v iface=%v impl=%v)", fn != nil, ict != nil, mct != nil)
+		return vc
+	}
+	g := ld.newGen(specs, GenOpts{})
+	defer func() {
+		if r := recover(); r != nil {
+			vc.GenErr = fmt.Sprintf("generator panic: %v", r)
+		}
+	}()
+	tr := g.newTrans(fn, true)
+	tr.contract = ict
+	tr.label = label
+	g.topTr = tr
+	vc.Contract = ict
+	e := g.e
+	st := g.initState()
+	tr.rc, tr.st = tTrue, st
+	e.assertRaw(ge(st.get(e, "$wm", SInt), intT(2)))
+	var params []Val
+	names := append([]string{"self"}, ict.Params...)
+	for i, p := range fn.Params {
+		v := tr.freshVal(p.Type(), "p$"+p.Name(), st, tTrue)
+		if i == 0 && len(v.C) == 1 {
+			e.assertRaw(gt(v.C[0], intT(0)))
+		}
+		params = append(params, v)
+	}
+	// the interface contract speaks about the interface value: box the receiver
+	tr.params = params
+	tr.nameOverride = names
+	tr.pre = st.clone()
+	// `self` in the interface contract is the interface value; bind it to the boxed receiver, and the name of the
+	// concrete receiver (for the coupling) to the pointer itself
+	recvT := fn.Params[0].Type()
+	id := g.typeID(recvT)
+	box := e.declareFun(fmt.Sprintf("box$%d", id), []Sort{SInt}, SInt)
+	unbox := e.declareFun(fmt.Sprintf("unbox$%d", id), []Sort{SInt}, SInt)
+	boxed := Term{fmt.Sprintf("(%s %s)", box, params[0].C[0].S), SInt}
+	e.assertRaw(and(eq(Term{fmt.Sprintf("(%s %s)", unbox, boxed.S), SInt}, params[0].C[0]), not(eq(boxed, intT(0))), eq(tr.dynType(boxed), intT(int64(id)))))
+	mkEnv := func(post *State) *Env {
+		env := tr.topEnv(post)
+		env.vars["self"] = Val{T: types.NewInterfaceType(nil, nil), C: []Term{boxed}}
+		env.vars[fn.Params[0].Name()] = params[0]
+		env.vars["impl"] = params[0]
+		if p := ld.pkgByPath[rf.Pkg]; p != nil {
+			env.pkg = p
+		}
+		env.contract = ict
+		return env
+	}
+	if rf.Coupling != nil {
+		e.assume(tTrue, mkEnv(tr.pre).evalBool(rf.Coupling))
+	}
+	for _, rq := range ict.Requires {
+		e.assume(tTrue, mkEnv(tr.pre).evalBool(rq.AST))
+	}
+	if rf.Assuming != nil {
+		e.assume(tTrue, mkEnv(tr.pre).evalBool(rf.Assuming))
+		e.note("refinement %s assumes: %s", label, rf.AssumingSrc)
+	}
+	g.touched = map[string]Sort{}
+	res := tr.applyContract(mct, fn, fn.Signature, params, nil, fn.Signature.Results(), implKey, false)
+	props := unionProps(ict.Props, mct.Props)
+	for _, o := range e.obls {
+		o.Props = props
+	}
+	post := tr.st
+	for _, en := range ict.Ensures {
+		env := mkEnv(post)
+		tr.bindResults(env, ict, fn.Signature, res)
+		t, extra := tr.goalClause(env, en.AST)
+		e.oblige(&Obl{Name: fmt.Sprintf("%s#ensures:%s", label, en.Label), Kind: "refinement", Props: unionProps(en.Props, props), Cond: tTrue, Goal: t, Pos: en.Where, Fn: label, Extra: extra})
+	}
+	if rf.Coupling != nil {
+		e.oblige(&Obl{Name: label + "#coupling-kept", Kind: "refinement", Props: props, Cond: tTrue, Goal: mkEnv(post).evalBool(rf.Coupling), Pos: rf.Where, Fn: label})
+	}
+	// frame: everything the implementation may assign is covered by the interface's assigns clause
+	if ict.HasAssigns {
+		env := mkEnv(tr.pre)
+		env.useOld = true
+		ts, all := tr.allTargets(env, ict)
+		tr.frameTs, tr.frameAll, tr.frameDone = ts, all, true
+		tr.rets = []retInfo{{cond: tTrue, st: post}}
+		if !all {
+			saved := tr.contract
+			tr.frameObligations(ict)
+			tr.contract = saved
+			for _, o := range e.obls {
+				if o.Kind == "frame" {
+					o.Props = props
+				}
+			}
+		}
+	}
+	e.oblige(&Obl{Name: label + "#vacuity:requires-sat", Kind: "vacuity", Cond: tTrue, Goal: tTrue, Vac: true, Fn: label, Props: props})
+	vc.Prefix = e.prefix()
+	vc.Obls = e.obls
+	vc.Notes = e.notes
+	vc.Callees = g.calleesUsed
+	vc.SpecErrors = g.specErrors
+	vc.Abstracted = g.abstracted
+	return vc
 }
